@@ -155,7 +155,8 @@ INITS = {
     "mesolve": ["dm", "dm_unnorm", "ket", "ket_unnorm"],
     "mesolve_ket": ["ket"],
     "brmesolve": ["ket", "ket_unnorm", "dm_unnorm"],
-    "krylovsolve": ["ket", "ket_unnorm"],
+    "krylovsolve": ["ket"],     # the Krylov integrator's error control assumes a unit ket
+
     "fsesolve": ["ket", "ket_unnorm"],
     "fmmesolve": ["dm", "dm_unnorm"],
     "heomsolve": ["dm", "dm_unnorm"],
@@ -679,6 +680,8 @@ TL_A = [0.0, 0.5, 1.0, 2.0]
 TL_B = [0.0, 1.0]
 TL_C = [0.25, 0.5, 0.75, 1.0, 3.0]
 TL_D = [0.0, 0.2, 0.4, 0.6, 0.8, 1.0]
+TL_E = [0.0, 0.125, 0.25, 0.5, 0.75, 1.0]
+STOCH = ("ssesolve", "smesolve", "smesolve_het")
 SM_VALUES = ["", "start", "middle", "end", True]
 
 
@@ -731,8 +734,9 @@ def strata():
             continue
         for m in solver_methods(name):
             for init in INITS[name]:
-                if name == "sesolve" and init == "oper" and m == "krylov":
-                    continue                      # krylov method evolves kets only
+                if name == "sesolve" and init != "ket" and m == "krylov":
+                    continue      # the krylov method evolves unit kets only (an unnormalised
+                                  # ket makes its step-size search give up: IntegratorException)
                 out.append((name, m, init))
     return out
 
@@ -761,7 +765,11 @@ def extended_cells(rng, per_stratum):
             o.update(_extra_opts(name, rng, storing))
             if m is not None:
                 o["method"] = m
-            out.append((name, form, o, rng.choice([TL_A, TL_C, TL_D, TL_D]), init))
+            # the stochastic integrators advance in whole steps of options["dt"]
+            # (sode/_noise.py: "only multiple of dt are expected"): their time
+            # lists are multiples of dt = 1/8
+            tls = [TL_A, TL_C, TL_E, TL_E] if name in STOCH else [TL_A, TL_C, TL_D, TL_D]
+            out.append((name, form, o, rng.choice(tls), init))
     return out
 
 
@@ -793,6 +801,13 @@ def run_oracle(ctx, rng):
             nbad += one_cell(ctx, name, form, o, tl, init, model_cases)
         except Exception as e:              # a crash of a documented call is a finding
             import traceback
+            if isinstance(e, RuntimeError) and "collapse time" in str(e):
+                # mcsolve could not bracket a jump time with this integrator: no
+                # result object was produced; that is C16's subject, not C12's
+                skipped = ctx.cov.setdefault("input_distribution", {}).setdefault(
+                    "solver_cells_skipped_collapse_time", [])
+                skipped.append([name, o.get("method", "default")])
+                continue
             ctx.violation("solver:%s" % name, "exception:" + type(e).__name__,
                           "%s(%s, init=%s, e_ops=%s) raised %r" % (name, _short(o), init, form, e),
                           {"solver": name, "eops_form": form, "options": o, "tlist": list(tl),
